@@ -107,7 +107,7 @@ def check_filters(prop, tier, replay):
 
 JCFG = "SPECIFICATION Spec\nINVARIANT Done\nCHECK_DEADLOCK FALSE\n"
 JOIN_CLASSES = {"join-ready-before-sides", "join-list-error", "join-not-ready", "join-content-before-ready", "join-selection", "rc-selection",
-                "join-duplicates", "join-events-not-delta", "join-close-hangs", "join-close-stops-base", "join-leak", "join-error", "crash"}
+                "join-duplicates", "join-events-not-delta", "join-close-hangs", "join-close-stops-base", "join-leak", "join-on-stopped-base", "join-error", "crash"}
 
 
 def run_joins(res, tier, want):
